@@ -134,6 +134,15 @@ CHECKS = {
         note="Argument domains and mutation menus as in the check source (t=1 quick, t=2 thorough); pointers that do not reference memory of the stated size "
              "(NULL with a length inside parameter structs, NULL template values outside C_GetAttributeValue) are outside the property's precondition and not "
              "generated; file mutations cover an AES/data object file, an RSA private key file, token.object and softhsm2.conf."),
+    "C20": dict(
+        category="translation_validation", design_ref="DESIGN.md 3/C20",
+        technique="differential exhaustive exploration: every enumerated program (action sequences up to depth 2/3, the keyed-operation decision matrix, the deterministic crypto grid) executed in lock-step under {file, SQLite} x {OpenSSL, Botan} builds of the same tree; traces compared step by step",
+        text="~45 000 (quick) programs/cells; return code of every step, the complete attribute snapshot of all objects plus token flags after every step and after a "
+             "final restart, and outputs of deterministic mechanisms must be identical in all four configurations; randomised signatures produced in one crypto "
+             "backend must verify in the other.",
+        engine="p11sh built in the variants ossl-plain and botan-plain; SQLite lanes use in-place restoring snapshots",
+        note="Mechanisms are intersected over both backends' C_GetMechanismList; single DES is excluded when a backend cannot execute it (OpenSSL 3 without legacy "
+             "provider on this image); five known findings (empty-input decrypt with Botan) are listed in known_findings.json."),
 }
 
 NOT_YET = "check under construction in this session; not claimed yet (DESIGN.md Appendix D gives the build order)"
@@ -159,10 +168,10 @@ def main():
         })
     m = {
         "version": 1,
-        "setup_cmd": "python3 tools/build_sut.py ossl-asan ossl-plain ref",
+        "setup_cmd": "python3 tools/build_sut.py ossl-asan ossl-plain botan-plain ref",
         "hooks": {"guard": "SOFTHSM_VERIF", "enable": "tools/build_sut.py passes -DSOFTHSM_VERIF to every variant it compiles from /repo's working tree",
                   "baseline_off_cmd": "cmake --build /repo/_build && ctest --test-dir /repo/_build -j8 --timeout 900",
-                  "source_commits": [], "fix_commits": ["6bd3dce", "e87af21", "bea9994", "588c9b7", "ceb5015", "bf60869", "58c10b5", "813a6d6", "2adb934", "9affe31", "8d94e13", "fd7cd14", "084c459"], "add_only": True},
+                  "source_commits": [], "fix_commits": ["6bd3dce", "e87af21", "bea9994", "588c9b7", "ceb5015", "38ed9d5", "d3eb7f4", "bf60869", "58c10b5", "813a6d6", "2adb934", "9affe31", "8d94e13", "fd7cd14", "084c459"], "add_only": True},
         "engines": [
             {"name": "p11sh", "path": "engine/p11sh", "serves_properties": sorted(CHECKS), "kind_free_text": "PKCS#11 shell linked statically against the SUT; SNAP/BACK process snapshots; guard pages + canaries around every buffer"},
             {"name": "p11mc", "path": "py/p11mc", "serves_properties": sorted(CHECKS), "kind_free_text": "explicit-state explorer (level-synchronous BFS with replay-to-state, unmerged DFS), reference models, evidence/findings glue"},
